@@ -172,10 +172,16 @@ impl<'s> Cx<'s> {
                 r6n: 0,
                 r2n: 0,
                 r12n: 0,
+                n_index: 0,
+                n_arith: 0,
+                n_unwrap: 0,
+                n_panic: 0,
+                n_calls: 0,
             };
             fv.visit_block(b);
             v["loops"] = json!(fv.loops);
             v["r6_count"] = json!(fv.r6n);
+            v["safety"] = json!({"index": fv.n_index, "arith": fv.n_arith, "unwrap": fv.n_unwrap, "panic": fv.n_panic, "calls": fv.n_calls});
         }
         self.items.push(v);
     }
@@ -355,6 +361,11 @@ struct FnVisitor<'c, 's> {
     r6n: usize,
     r2n: usize,
     r12n: usize,
+    n_index: usize,
+    n_arith: usize,
+    n_unwrap: usize,
+    n_panic: usize,
+    n_calls: usize,
 }
 
 /// Collect `&ident` reference sub-patterns: (start, end, ident, is_mut).
@@ -559,6 +570,7 @@ impl<'c, 's, 'ast> Visit<'ast> for FnVisitor<'c, 's> {
     }
 
     fn visit_expr_call(&mut self, c: &'ast syn::ExprCall) {
+        self.n_calls += 1;
         // R3: assert_unchecked(c) -> assert!(c)
         if is_path_ending(&c.func, &["assert_unchecked"]) {
             let (a, b) = br(c.func.span());
@@ -582,6 +594,10 @@ impl<'c, 's, 'ast> Visit<'ast> for FnVisitor<'c, 's> {
 
     fn visit_expr_method_call(&mut self, m: &'ast syn::ExprMethodCall) {
         let name = m.method.to_string();
+        self.n_calls += 1;
+        if name == "unwrap" || name == "expect" {
+            self.n_unwrap += 1;
+        }
         // R3: recv.get_unchecked(e) -> (&recv[e])
         if name == "get_unchecked" && m.args.len() == 1 {
             let (rs, re) = br(m.receiver.span());
@@ -678,6 +694,29 @@ impl<'c, 's, 'ast> Visit<'ast> for FnVisitor<'c, 's> {
             }
         }
         visit::visit_expr_method_call(self, m);
+    }
+
+    fn visit_expr_index(&mut self, i: &'ast syn::ExprIndex) {
+        self.n_index += 1;
+        visit::visit_expr_index(self, i);
+    }
+    fn visit_expr_binary(&mut self, b: &'ast syn::ExprBinary) {
+        use syn::BinOp::*;
+        if matches!(
+            b.op,
+            Add(_) | Sub(_) | Mul(_) | Div(_) | Rem(_) | Shl(_) | Shr(_) | AddAssign(_) | SubAssign(_)
+                | MulAssign(_) | DivAssign(_) | RemAssign(_) | ShlAssign(_) | ShrAssign(_)
+        ) {
+            self.n_arith += 1;
+        }
+        visit::visit_expr_binary(self, b);
+    }
+    fn visit_macro(&mut self, m: &'ast syn::Macro) {
+        let p = path_str(&m.path);
+        if matches!(p.as_str(), "panic" | "assert" | "assert_eq" | "unreachable" | "unimplemented" | "todo") {
+            self.n_panic += 1;
+        }
+        visit::visit_macro(self, m);
     }
 
     // do not descend into nested items
